@@ -61,6 +61,9 @@ METAS = [  # (nu record, model pairs key -> JSON text)
 OUT_TTLS = [None, None, None, "forever", "ephemeral", "time:600000"]
 
 
+BOGUS_CTX = "0123456789abcdefghijklmno"      # a well-formed id that registers no context
+
+
 def nu_str(s):
     return '"' + s.replace("\\", "\\\\").replace('"', '\\"') + '"'
 
@@ -76,7 +79,9 @@ def render_append(a, ctx_text):
         parts.append("--meta " + a["meta_nu"])
     if a.get("ttl"):
         parts.append("--ttl " + nu_str(a["ttl"]))
-    if a.get("ctx_ref") is not None:
+    if a.get("ctx_ref") == "bogus":
+        parts.append("--context " + nu_str(BOGUS_CTX))
+    elif a.get("ctx_ref") is not None:
         parts.append("--context " + nu_str(ctx_text(a["ctx_ref"])))
     return " ".join(parts)
 
@@ -246,9 +251,11 @@ class Gen:
         apps = []
         for _ in range(r.choice([0, 0, 1, 1, 2, 3])):
             m = r.choice(METAS)
-            apps.append({"topic": r.choice(["out1", "out2", "o.x"]), "meta_nu": m[0], "meta": m[1],
+            # now and then an output the store refuses outside the zero context (`xs.context`), and a --context naming a
+            # well-formed id that is no context at all: the handler's own context is what counts
+            apps.append({"topic": r.choice(["out1", "out2", "o.x"] * 6 + ["xs.context"]), "meta_nu": m[0], "meta": m[1],
                          "ttl": r.choice(OUT_TTLS) if history_ok else r.choice(OUT_TTLS + ["head:1", "head:2"]),
-                         "ctx_ref": r.choice([None, None, None, r.randint(0, self.nctx)]),
+                         "ctx_ref": r.choice([None, None, None, r.randint(0, self.nctx), "bogus"]),
                          "content": r.choice([None, "c", "c{n}", "x y"])})
         ret = r.choice(RETS + SCOPE_PROBES)
         fail = r.random() < 0.12
@@ -691,7 +698,10 @@ def canon_out(f, known_ids):
             content = json.dumps("cat:" + own)
         elif content == '"{scope:head}"':              # model side: `.head tick` finds the tick of its own context
             content = json.dumps("head:" + own)
-    return (f["topic"], f["ctx"], tuple(sorted(meta.items())), f.get("ttl") or "forever", content)
+    ttl = f.get("ttl") or "forever"
+    if f["topic"] == "xs.context":
+        ttl = "forever"            # the store keeps registrations forever whatever TTL was asked for (C07)
+    return (f["topic"], f["ctx"], tuple(sorted(meta.items())), ttl, content)
 
 
 # ---------------------------------------------------------------------------------------------
@@ -766,7 +776,7 @@ def model_rules(sp, ctxs):
     for r in sp["rules"]:
         out.append({"topic": r["topic"], "ret": r["ret"], "fail": bool(r.get("fail")),
                     "appends": [{"topic": a["topic"], "meta": a["meta"], "ttl": a.get("ttl"),
-                                 "ctx": ctxs[a["ctx_ref"]] if a.get("ctx_ref") is not None else None,
+                                 "ctx": (b36_to_hex(BOGUS_CTX) if a["ctx_ref"] == "bogus" else ctxs[a["ctx_ref"]]) if a.get("ctx_ref") is not None else None,
                                  "content": a.get("content")} for a in r["appends"]]})
     return out
 
